@@ -136,6 +136,8 @@ impl SessionEngine {
         if handle.started.swap(true, Ordering::SeqCst) {
             return false;
         }
+        #[cfg(rip_verif)]
+        rip_kernel::verif::point("session.spawn.guarded");
         let openresponses = openresponses_override.or_else(|| self.openresponses.clone());
         tokio::spawn(run_session(SessionContext {
             runtime: self.runtime.clone(),
